@@ -27,7 +27,7 @@ abbrev ARef := Nat
 
 inductive PyErr
   | valueError | attackGraphException | assertionError | keyError | lookupError | languageGraphException
-  | recursionError | nonTermination | other
+  | recursionError | nonTermination | attackGraphStepExpressionError | other
   deriving Repr, DecidableEq, Inhabited
 
 /-- position of a float relative to 0.0 and 1.0 -/
@@ -65,6 +65,65 @@ def dictGetS (d : Option PyDictS) (k : String) : String :=
   | some l => ((l.find? (fun e => e.1 == k)).map (·.2)).getD "<KeyError>"
   | none => "<KeyError>"
 
+/-! ### the step-expression evaluator (`_process_step_expression`) -/
+
+/-- a model asset as the evaluator sees it (`.id`, `.type`, `.name`) -/
+structure PyAssetObj where
+  id : Int
+  type : String := ""
+  name : String := ""
+  deriving Repr, DecidableEq, Inhabited
+
+/-- a step expression of the language specification: a JSON object with the keys `type`, `name`, `subType`,
+`lhs`, `rhs`, `stepExpression`.  Reading a key that is absent gives the empty string / the expression `missing`
+(whose `type` no `case` matches) where Python raises `KeyError`. -/
+inductive PyExpr
+  | mk (type name subType : String) (lhs rhs stepExpression : Option PyExpr)
+  deriving Repr, Inhabited
+
+def PyExpr.missing : PyExpr := .mk "<KeyError>" "" "" none none none
+def PyExpr.type : PyExpr → String | .mk t _ _ _ _ _ => t
+def PyExpr.name : PyExpr → String | .mk _ n _ _ _ _ => n
+def PyExpr.subType : PyExpr → String | .mk _ _ t _ _ _ => t
+def PyExpr.lhs : PyExpr → PyExpr | .mk _ _ _ l _ _ => l.getD .missing
+def PyExpr.rhs : PyExpr → PyExpr | .mk _ _ _ _ r _ => r.getD .missing
+def PyExpr.stepExpression : PyExpr → PyExpr | .mk _ _ _ _ _ e => e.getD .missing
+
+/-- a language-graph asset, identified by its name -/
+abbrev LgAsset := String
+
+/-- what the evaluator calls on its `lang_graph` and `model` arguments: *parameters* of the translation (the
+assumed behaviour of these methods is part of the trusted base; `Py/Abs.lean` instantiates them from the
+hand-written model).  `whileFuel` bounds the unrolling of `while` loops. -/
+structure EvalEnv where
+  get_associated_assets_by_field_name : PyAssetObj → String → List PyAssetObj
+  _get_variable_for_asset_type_by_name : String → String → Except PyErr PyExpr
+  get_asset_by_name : String → Option LgAsset
+  is_subasset_of : LgAsset → LgAsset → Bool
+  whileFuel : Nat
+  /-- fuel handed to the (unboundedly recursive) evaluator by its callers -/
+  evalFuel : Nat
+
+/-- the part of `AttackGraphNode.attributes` (the resolved attack-step dictionary of the language) that the
+linking loop of `_generate_graph` reads: `attributes['reaches']['stepExpressions']` -/
+structure PyReaches where
+  overrides : Bool := true
+  stepExpressions : List PyExpr := []
+  deriving Repr, Inhabited
+structure PyAttribs where
+  reaches : Option PyReaches := none
+  deriving Repr, Inhabited
+/-- `attributes['reaches']` (guarded in the code by `isinstance(attributes, dict)`; `None` otherwise) -/
+def attribsReaches (a : Option PyAttribs) : Option PyReaches := a.bind (·.reaches)
+/-- `reaches['stepExpressions']` (guarded by the truthiness of `reaches`) -/
+def reachesExprs (r : Option PyReaches) : List PyExpr := match r with | some x => x.stepExpressions | none => []
+/-- `[node.asset]`: a node without asset would make the evaluator fail with `AttributeError`; the translation
+evaluates from no source (generated nodes always have an asset) -/
+def optAssetList (a : Option PyAssetObj) : List PyAssetObj := match a with | some x => [x] | none => []
+/-- `name + ':' + attack_step` for an `Optional[str]` step name: `None` is rendered as `"None"` (Python raises
+`TypeError`; the hand model looks up the name `…:None`, which no node has) -/
+def optStrGet (x : Option String) : String := x.getD "None"
+
 structure PyAsset where
   name : String := ""
   deriving Repr, DecidableEq, Inhabited
@@ -75,7 +134,8 @@ structure PyNode where
   name : String := ""
   ttc : Option PyDictS := none
   id : Option Int := none
-  asset : Option PyAsset := none
+  asset : Option PyAssetObj := none
+  attributes : Option PyAttribs := none
   children : List NRef := []
   parents : List NRef := []
   defense_status : Option PyFloat := none
@@ -135,43 +195,6 @@ def strOptInt (x : Option Int) : String := match x with | some i => toString i |
 /-- integer value of an `Optional[int]` that the code has just assigned / checked (`None` cannot occur there);
 `0` is never used: see the `isinstance(.., int)` guards in the generated code -/
 def optIntGet (x : Option Int) : Int := x.getD 0
-
-/-! ### the step-expression evaluator (`_process_step_expression`) -/
-
-/-- a model asset as the evaluator sees it (`.id`, `.type`, `.name`) -/
-structure PyAssetObj where
-  id : Int
-  type : String := ""
-  name : String := ""
-  deriving Repr, DecidableEq, Inhabited
-
-/-- a step expression of the language specification: a JSON object with the keys `type`, `name`, `subType`,
-`lhs`, `rhs`, `stepExpression`.  Reading a key that is absent gives the empty string / the expression `missing`
-(whose `type` no `case` matches) where Python raises `KeyError`. -/
-inductive PyExpr
-  | mk (type name subType : String) (lhs rhs stepExpression : Option PyExpr)
-  deriving Repr, Inhabited
-
-def PyExpr.missing : PyExpr := .mk "<KeyError>" "" "" none none none
-def PyExpr.type : PyExpr → String | .mk t _ _ _ _ _ => t
-def PyExpr.name : PyExpr → String | .mk _ n _ _ _ _ => n
-def PyExpr.subType : PyExpr → String | .mk _ _ t _ _ _ => t
-def PyExpr.lhs : PyExpr → PyExpr | .mk _ _ _ l _ _ => l.getD .missing
-def PyExpr.rhs : PyExpr → PyExpr | .mk _ _ _ _ r _ => r.getD .missing
-def PyExpr.stepExpression : PyExpr → PyExpr | .mk _ _ _ _ _ e => e.getD .missing
-
-/-- a language-graph asset, identified by its name -/
-abbrev LgAsset := String
-
-/-- what the evaluator calls on its `lang_graph` and `model` arguments: *parameters* of the translation (the
-assumed behaviour of these methods is part of the trusted base; `Py/Abs.lean` instantiates them from the
-hand-written model).  `whileFuel` bounds the unrolling of `while` loops. -/
-structure EvalEnv where
-  get_associated_assets_by_field_name : PyAssetObj → String → List PyAssetObj
-  _get_variable_for_asset_type_by_name : String → String → Except PyErr PyExpr
-  get_asset_by_name : String → Option LgAsset
-  is_subasset_of : LgAsset → LgAsset → Bool
-  whileFuel : Nat
 
 /-- truthiness of an `Optional[bool]` / `Optional[int]` -/
 def truthyOptBool (x : Option Bool) : Bool := x == some true
